@@ -25,6 +25,7 @@ for n in sorted(os.listdir(root)):
             break
     else:
         if res: now='MISSED'
+    if now=='MISSED' and n in fr.get('not_caught',{}): key='**not caught** – '+fr['not_caught'][n]
     why=fr['strengthening'].get(n,'')
     if why: key += f" – after adding: {why}"
     rows.append(f"| {n} | {title} | {first} | {now} | {key} |")
